@@ -108,3 +108,45 @@ func H_C11_shared() {
 	vAssert("released", len(e.u.fteidGenerator.usedMap) == 0 && len(e.u.ippool.inventory) == 0)
 	vCover("shared")
 }
+
+// R_C11_shared: two associations (two PFCPConn objects, one goroutine each, as
+// conn.go runs them) sharing the node-level UE address pool and F-TEID
+// generator, each running the scenario of H_C11_shared with every ending.
+func R_C11_shared() {
+	e1 := vNewEnv(true)
+	e2 := vNewEnv(true)
+	e2.u.ippool, e2.u.fteidGenerator = e1.u.ippool, e1.u.fteidGenerator
+	var wg sync.WaitGroup
+	for g, e := range []*vEnv{e1, e2} {
+		wg.Add(1)
+		go func(g int, e *vEnv) {
+			defer wg.Done()
+			e.dp.fixedCause = 1
+			for n := 0; n < 30; n++ {
+				pdrs, fars, qers := vConcreteRules()
+				pdrs[0].choose = true
+				pdrs[0].ueChoose, pdrs[1].ueChoose = true, true
+				e.vSend(vEstablishment(uint32(3*n+1), uint64(0xc0+g), "cp.test", pdrs, fars, qers))
+				r, ok := e.vLastReply().(*message.SessionEstablishmentResponse)
+				if !ok || r.UPFSEID == nil {
+					continue
+				}
+				fs, err := r.UPFSEID.FSEID()
+				if err != nil {
+					continue
+				}
+				switch n % 3 {
+				case 0:
+					e.vSend(vDeletion(uint32(3*n+2), fs.SEID))
+				case 1:
+					for _, s := range e.pc.store.GetAllSessions() {
+						e.pc.RemoveSession(s)
+					}
+				case 2:
+					e.vSend(message.NewSessionReportResponse(0, 0, fs.SEID, uint32(3*n+2), 0, ie.NewCause(ie.CauseSessionContextNotFound)))
+				}
+			}
+		}(g, e)
+	}
+	wg.Wait()
+}
